@@ -57,6 +57,7 @@ func init() {
 				{Scenario: "pipe", Params: mustJSON(PipeParams{Mode: "gen", Alphabet: skip, Depth: d + 1, Ops: ops, SkipUntil: true}), Bound: 0, Shards: 8},
 				{Scenario: "pipe", Params: mustJSON(PipeParams{Mode: "gen", Alphabet: coll, Depth: d + 1, Ops: ops, Colls: true}), Bound: 0, Shards: 8},
 				{Scenario: "pipe", Params: mustJSON(PipeParams{Mode: "gen", Alphabet: coll, Depth: d, Ops: ops, Colls: false}), Bound: 0, Shards: 4},
+				{Scenario: "c08_rollback", Params: mustJSON(RollbackParams{}), Bound: 0, Shards: 4, Note: "the documented rollback filter: nothing at or below the position already reached, everything above it"},
 			}
 		},
 	})
@@ -76,6 +77,7 @@ func init() {
 				out = append(out, Instance{Scenario: "pipe", Params: mustJSON(PipeParams{Mode: "script", Layout: l, Depth: d, Ops: ops, CrashEnd: true}), Bound: 0, Shards: 4})
 			}
 			out = append(out, Instance{Scenario: "pipe_malformed", Params: mustJSON(struct{}{}), Bound: 0})
+			out = append(out, Instance{Scenario: "c06_reopen", Params: mustJSON(struct{}{}), Bound: 0, Note: "transient end, re-open answered with a rollback: the observer carries its old snapshot into the catch-up phase"})
 			return out
 		},
 	})
